@@ -34,8 +34,8 @@ class Topo:
     """shards: list of lists of roles ('P' / 'R').  Address ids count up in configuration order
     (as pool.rs address_id does for a single pool); host = 127.0.0.(10+id)."""
 
-    def __init__(self, shards, lb="random", hc=True, default_role="any", pool_size=2, ban_time=60):
-        self.shards, self.lb, self.hc, self.default_role, self.pool_size, self.ban_time = shards, lb, hc, default_role, pool_size, ban_time
+    def __init__(self, shards, lb="random", hc=True, default_role="any", pool_size=2, ban_time=60, ps_cache=0):
+        self.shards, self.lb, self.hc, self.default_role, self.pool_size, self.ban_time, self.ps_cache = shards, lb, hc, default_role, pool_size, ban_time, ps_cache
         self.addrs = []
         for s, roles in enumerate(shards):
             nr = 0
@@ -51,7 +51,7 @@ class Topo:
 
     def toml(self):
         general = {"connect_timeout": CONNECT_TO, "healthcheck_timeout": HC_TO, "healthcheck_delay": 0 if self.hc else 600000, "ban_time": self.ban_time}
-        opts = {"default_role": self.default_role, "load_balancing_mode": "loc" if self.lb == "loc" else "random"}
+        opts = {"default_role": self.default_role, "load_balancing_mode": "loc" if self.lb == "loc" else "random", "prepared_statements_cache_size": self.ps_cache}
         sh = []
         for s, roles in enumerate(self.shards):
             sh.append({"database": "d%d" % s, "servers": [[a["name"], "primary" if a["role"] == "P" else "replica"] for a in self.addrs if a["shard"] == s]})
@@ -555,6 +555,26 @@ def probes_unguarded():
     out.append(("site-checkin-cleanup", t, [{"op": "hang_match", "b": "r0", "text": "RESET ALL"},
                                             {"op": "txn", "role": "replica", "sql": "SET statement_timeout TO 5000", "c": "cc", "keep": True, "wait": 2500},
                                             {"op": "txn", "c": "cc", "reuse": True, "wait": 2500, "site": "SCheckinCleanup", "expect": "blocked"}], None))
+    # register_prepared_statement: the statement was parsed on the primary; the Bind is routed to the replica, which
+    # does not know it: pgcat sends Parse + Sync on its own and waits for the answer
+    t = Topo([["P", "R"]], hc=False, ps_cache=10)
+    bes = [{"t": "B", "portal": "", "name": "s1", "params": []}, {"t": "E", "portal": "", "max": 0}, {"t": "S"}]
+    out.append(("site-register-prepared", t, [{"op": "txn", "role": "primary", "c": "cc", "keep": True, "msgs": [{"t": "P", "name": "s1", "sql": "SELECT 1 /*s0*/", "types": []}] + bes},
+                                              {"op": "mode", "b": "r1", "mode": "hang"},
+                                              {"op": "txn", "role": "replica", "c": "cc", "reuse": True, "msgs": bes, "wait": 2500, "site": "SRegisterPrepared", "expect": "blocked"}], None))
+    return out
+
+
+def probes_observe():
+    """Schedules whose outcome is recorded as an observation (no verdict)."""
+    out = []
+    # (f) the server connection breaks inside sync_parameters (stale idle connection, no health check, SET batch needed)
+    t = Topo([["P", "R"]], hc=False)
+    out.append(("observe-sync-parameters-failure", t, [{"op": "mode", "b": "r1", "mode": "down"}, {"op": "txn", "role": "replica", "app": "other_app", "observe": "sync_fail"}], None))
+    # (e) a connection attempt hung in startup keeps the server's bb8 pool from connecting again after the server recovered
+    t = Topo([["P", "R"]], hc=True, ban_time=1)
+    out.append(("observe-pending-connect-wedge", t, [{"op": "txn", "role": "replica"}, {"op": "mode", "b": "r1", "mode": "normal"}, {"op": "sleep", "ms": 2500},
+                                                     {"op": "txn", "role": "replica", "observe": "wedge"}], {"r1": "hang_startup"}))
     return out
 
 
@@ -635,7 +655,7 @@ def run_and_check(run, col, wire, cases, stats, label, workers=16):
         prev_post = None
         for si, st in enumerate(info["steps"]):
             s = st["s"]
-            replay = {"case": cid, "topology": {"shards": topo.shards, "lb": topo.lb, "healthcheck": topo.hc, "default_role": topo.default_role, "pool_size": topo.pool_size, "ban_time": topo.ban_time},
+            replay = {"case": cid, "topology": {"shards": topo.shards, "lb": topo.lb, "healthcheck": topo.hc, "default_role": topo.default_role, "pool_size": topo.pool_size, "ban_time": topo.ban_time, "ps_cache": topo.ps_cache},
                       "schedule": [{k: v for k, v in x.items() if k != "k"} for x in hl], "initial_modes": init, "step": s["k"]}
             pre = st["pre"] if st.get("admin") else st["ob"]["pre"]
             post = st["post"] if st.get("admin") else st["ob"]["post"]
@@ -654,6 +674,10 @@ def run_and_check(run, col, wire, cases, stats, label, workers=16):
             ob = st["ob"]
             stats["txn_kinds"][ob["kind"]] = stats["txn_kinds"].get(ob["kind"], 0) + 1
             stats["distinct"].add((topo.key(), s.get("role"), s.get("shard"), tuple(sorted((k, v) for k, v in st["modes"].items() if k != "#flags")), tuple(sorted((b["host"], b["reason"].split("(")[0]) for b in ob["pre"])), ob["kind"]))
+            if s.get("observe"):
+                stats["observed"][s["observe"]] = {"client": [ob["kind"], ob["arg"]], "bans_before": brief(ob["pre"]), "bans_after": brief(ob["post"]), "modes": {k: v for k, v in st["modes"].items() if k != "#flags"},
+                                                   "ms": ob["t1"] - ob["t0"]}
+                continue
             bad = monitors(topo, s, ob, st["modes"])
             if s.get("expect"):
                 check_site(run, col, s, ob, replay, stats)
@@ -772,7 +796,7 @@ def check_site(run, col, s, ob, replay, stats):
 
 def new_stats():
     return {"steps": 0, "evaluations": 0, "validated": 0, "set_valued": 0, "allowed_sizes": [], "txn_kinds": {}, "distinct": set(), "monitor_failures": 0, "violations": 0,
-            "harness_errors": 0, "unmodelled": {}, "samples": [], "admin_steps": 0, "unban_events": 0, "silent_failovers": 0, "sites": {}, "obs_primary_ban_row": 0, "obs_showbans_hides_due": 0}
+            "harness_errors": 0, "unmodelled": {}, "samples": [], "admin_steps": 0, "unban_events": 0, "silent_failovers": 0, "sites": {}, "observed": {}, "obs_primary_ban_row": 0, "obs_showbans_hides_due": 0}
 
 
 def check(run):
@@ -784,7 +808,7 @@ def check(run):
         "bb8 (checkout error after connection_timeout, idle connections handed out unchecked), tokio timers and the clock are environment inputs (order, outcome per address, now)",
         "one clock reading per operation in the model; the tie tries every second between the step's start and end",
         "operations are atomic in the model (the code takes the banlist lock per access; concurrent checkouts interleave at that granularity) - the tie runs transactions one at a time",
-        "the timeout table (guard / known_unguarded) is transcribed by hand; three guarded and two unguarded sites are exercised by hanging a backend exactly there, SRelaySend and SRegisterPrepared are [read] only",
+        "the timeout table (guard / known_unguarded) is transcribed by hand; three guarded and three unguarded sites are exercised by hanging a backend exactly there, SRelaySend is [read] only",
     ]
     run.cov["trusted_base"] = ["coqc 8.16.1 kernel", "vm_compute", "coq/Ban/Model.v (hand model of pool.rs / client.rs / admin.rs ban logic)", "coq/Ban/Tie.v (enumeration; perms proved sound)",
                                "harness/src/mockpg.rs (mock PostgreSQL + fault modes), harness/src/bin/wire.rs, harness/src/pooler.rs, harness/src/client.rs", "props/c07.py generator, trace reader, monitors",
@@ -797,7 +821,7 @@ def check(run):
         return
     wire = bins["wire"]
     stats = new_stats()
-    cases = list(scripted(quick)) + [probe_busy_pool()] + probes_unguarded()
+    cases = list(scripted(quick)) + [probe_busy_pool()] + probes_unguarded() + probes_observe()
     nscripted = len(cases)
     tops = topologies(quick)
     reps = 4 if quick else 60
@@ -851,11 +875,21 @@ def check(run):
             for st in info["steps"]:
                 if not st.get("admin") and st["s"].get("busy"):
                     newb = [b for b in st["ob"]["post"] if b not in st["ob"]["pre"]]
-                    if any(b["reason"] == "FailedCheckout" and st["modes"][topo_name(info, b)] == "normal" for b in newb):
-                        obs.append("(c) pool_size=1, the only connection of healthy r0 held by an open transaction: the next checkout waits connect_timeout, r0 is banned FailedCheckout although healthy")
+                    waited = st["ob"]["t1"] - st["ob"]["t0"] >= CONNECT_TO - 20
+                    if any(b["reason"] == "FailedCheckout" and st["modes"][topo_name(info, b)] == "normal" for b in newb) or (waited and st["ob"]["kind"] == "ok"):
+                        obs.append("(c) pool_size=1, the only connection of healthy r0 held by an open transaction: the next checkout waits connect_timeout for a free slot, r0 is banned FailedCheckout although healthy "
+                                   "(r1 admin-banned: popped first => skipped, the client is refused AllServersDown; popped second => all replicas banned => reset, r1 serves)")
                         break
     run.cov["observations"] = sorted(set(obs)) + (["admin BAN <host of a primary> answers with a row for the primary although nothing is banned (%d times)" % stats["obs_primary_ban_row"]] if stats["obs_primary_ban_row"] else []) + \
         (["SHOW BANS hides an entry whose remaining time is <= 0 while try_unban (strict >) still treats it as banned (%d times)" % stats["obs_showbans_hides_due"]] if stats["obs_showbans_hides_due"] else [])
+    ob = stats["observed"].get("sync_fail")
+    if ob and ob["client"][0] == "closed_silent" and ob["bans_after"] == ob["bans_before"]:
+        obs.append("(f) a server connection that breaks inside sync_parameters (client.rs:1160, stale idle connection of a server that went away, no health check due): the client is disconnected without an error message and the replica is NOT banned (it is banned FailedCheckout at the next attempt)")
+    ob = stats["observed"].get("wedge")
+    if ob and ob["client"][0] == "refused" and ob["modes"].get("r1") == "normal":
+        obs.append("(e) a connection attempt that hung in startup is never abandoned (Server::startup has no timeout; connect_timeout only bounds the waiting client): 2.5 s after the server answers again its pool still cannot connect, "
+                   "the healthy replica is banned FailedCheckout again and role=replica is refused")
+    run.cov["observations"] = sorted(set(obs)) + [o for o in run.cov["observations"] if o not in obs]
     run.cov["sites_exercised"] = stats["sites"]
     run.cov["evaluations"] = stats["evaluations"]
     run.cov["distinct_nontrivial"] = len(stats["distinct"])
@@ -897,7 +931,7 @@ def replay(run, path):
     if not ok:
         print("harness does not build"); return 2
     tp = r["topology"]
-    topo = Topo(tp["shards"], lb=tp["lb"], hc=tp["healthcheck"], default_role=tp.get("default_role", "any"), pool_size=tp.get("pool_size", 2), ban_time=tp.get("ban_time", 60))
+    topo = Topo(tp["shards"], lb=tp["lb"], hc=tp["healthcheck"], default_role=tp.get("default_role", "any"), pool_size=tp.get("pool_size", 2), ban_time=tp.get("ban_time", 60), ps_cache=tp.get("ps_cache", 0))
     hl = [dict(x) for x in r["schedule"]]
     stats = new_stats()
     col = Col()
